@@ -55,6 +55,13 @@ def generate(rng, tier):
         cases.append({"op": "transitions", "f": f, "target": tg, "init": [fb(round(rng.uniform(-1, 1), 2)) for _ in range(d)],
                       "accept": rng.choice([0.55, 0.65, 0.8, 0.9, 0.95, 0.98]), "seed": str(rng.getrandbits(64)),
                       "runs": runs, "events_filter": "stepend"})
+    # targets whose log-density is NaN outside their domain (ln x - x, ln(1 - |x|^2)), started inside it, long warm-ups:
+    # a leaf outside the domain has a NaN energy change; the step size must stay positive and finite all the same
+    for sup, init in [("logdomain", [0.5]), ("ball", [0.1, 0.1]), ("logdomain", [0.5, 0.1])]:
+        for acc in ([0.51, 0.8] if tier == "quick" else [0.51, 0.6, 0.8, 0.95]):
+            cases.append({"op": "transitions", "f": "f32" if acc < 0.9 else "f64", "target": {"kind": sup, "d": len(init)},
+                          "init": [fb(v) for v in init], "accept": acc, "seed": str(rng.getrandbits(64)),
+                          "runs": [[3, 700 if tier == "quick" else 2000]], "events_filter": "stepend", "nan_region": True})
     # find_reasonable_epsilon on Gaussian targets with dyadic precision matrices
     for _ in range(40 if tier == "quick" else 400):
         f = rng.choice(["f32", "f64"])
@@ -176,7 +183,8 @@ def consts(case):
 def sel(case, out):
     """which steps get the interval evaluation (all warm-up steps up to a cap, a few frozen ones)"""
     ss = steps(case, out)
-    pick = [i for i, (nd, p, a, na, s) in enumerate(ss) if p[0] + 1 <= nd and all(math.isfinite(N.bf(x)) for x in p[1:5])]
+    pick = [i for i, (nd, p, a, na, s) in enumerate(ss) if p[0] + 1 <= nd and all(math.isfinite(N.bf(x)) for x in p[1:5])
+            and math.isfinite(N.bf(a)) and na >= 1]
     if len(pick) > 40:
         pick = pick[:20] + pick[-20:]
     return ss, pick
@@ -220,6 +228,7 @@ def whole_runs(out):
     for run in out["runs"]:
         ends = [e for e in run["events"] if e["e"] == "stepend"]
         if 1 <= len(run["states"]) <= 24 and len(ends) == len(run["states"]) and \
+                all(math.isfinite(N.bf(e["alpha"])) and e["nalpha"] >= 1 for e in ends) and \
                 all(math.isfinite(N.bf(x)) for st in [run["after_init"]] + run["states"] for x in st[1:5]):
             res.append(run)
     return res
@@ -368,8 +377,12 @@ def oracle(case, out):
             if m != prev[0] + 1:
                 return "m went from %d to %d" % (prev[0], m)
             if not (eps > 0 and math.isfinite(eps) and eb > 0 and math.isfinite(eb)):
-                return "transition m=%d: step size %r / averaged %r not positive finite" % (m, eps, eb)
-            a = N.bf(e["alpha"]) / e["nalpha"]
+                return "%s (start %s, accept %s, seed %s, run(%d, %d)), transition m=%d: step size %r / averaged %r not positive finite" % (
+                    case["target"]["kind"], [N.bf(b) for b in case["init"]], case["accept"], case["seed"], run["n"], run["d"], m, eps, eb)
+            a = N.bf(e["alpha"]) / e["nalpha"] if e["nalpha"] else float("nan")
+            if not (0.0 <= a <= 1.0):
+                return "%s, transition m=%d: acceptance statistic alpha/n_alpha = %r/%d driving the adaptation is not in [0, 1]" % (
+                    case["target"]["kind"], m, N.bf(e["alpha"]), e["nalpha"])
             eta = 1.0 / (m + 10)
             h_ref = (1 - eta) * N.bf(prev[3]) + eta * (delta - a)
             if abs(h - h_ref) > 64 * ulp * (1 + abs(h_ref)):
